@@ -17,8 +17,9 @@
 (*   SnapMan1     MANIFEST: snapshot pointer, full segment list            *)
 (*   then, depending on FixCompactOrder:                                   *)
 (*     TRUE  (the code after the fix): SnapMan2 (pruned list) ; Unlink* ;  *)
-(*           SnapMan3 (the code persists the pruned MANIFEST once more     *)
-(*           after the unlinks - PostUnlinkPersist)                        *)
+(*           SnapMan3 (the code saves the MANIFEST once more at the end of *)
+(*           create_snapshot, whether or not anything was compacted -      *)
+(*           PostUnlinkPersist)                                            *)
 (*     FALSE (the code before the fix): Unlink* ; SnapMan2                 *)
 (* Batch delete (MaxBatch > 0): one frame per listed id that is present    *)
 (*   (duplicates included, consecutive sequence numbers allocated at       *)
@@ -48,7 +49,8 @@ CONSTANTS NI, NV,           \* ids 1..NI, vectors 1..NV
           SeedSeqFromSnapshot, \* TRUE = recovery seeds next_wal_seq from the snapshot too (the code); FALSE = model twin of a seeded defect
           AnyRot,           \* TRUE = the rotation decision is left open (trace validation: the code rotates by bytes)
           MaxBatch,         \* longest id list of a batch delete (0 = no batch deletes)
-          PostUnlinkPersist \* TRUE = MANIFEST persisted once more after the unlinks (the code)
+          PostUnlinkPersist,\* TRUE = MANIFEST persisted once more after the unlinks (the code)
+          WithUmeta         \* TRUE = metadata updates are operations too (one frame, no change of the modelled content)
 
 Ids == 1..NI
 Vecs == 1..NV
@@ -122,6 +124,7 @@ Begin ==
   /\ \/ \E id \in Ids :
           /\ \/ \E v \in Vecs : infl' = Single("insert", id, v, nextSeq)
              \/ (mem[id] # 0 /\ infl' = Single("delete", id, 0, nextSeq))
+             \/ (WithUmeta /\ mem[id] # 0 /\ infl' = Single("umeta", id, 0, nextSeq))
           /\ nextSeq' = nextSeq + 1
      \/ \E s \in BatchSeqs :
           LET fr == SelectSeq(s, LAMBDA i : mem[i] # 0) IN
@@ -189,7 +192,8 @@ SnapMan1 ==
           /\ sinceSnap' = sinceSnap
      ELSE /\ man' = [man EXCEPT !.snap = snapTmp.id, !.snapSeq = snapTmp.last]
           /\ snapTmp' = [snapTmp EXCEPT !.todel = Deletable]
-          /\ pc' = (IF Deletable = {} THEN "snap_done" ELSE IF FixCompactOrder THEN "snap_man2" ELSE "snap_unlink")
+          /\ pc' = (IF Deletable = {} THEN (IF FixCompactOrder /\ PostUnlinkPersist THEN "snap_man3" ELSE "snap_done")
+                    ELSE IF FixCompactOrder THEN "snap_man2" ELSE "snap_unlink")
           /\ snaps' = snaps /\ sinceSnap' = sinceSnap
   /\ UNCHANGED <<mem, nextSeq, ackd, infl, segs, active, nextFile, nops, ncrash, rec>>
 
